@@ -594,12 +594,22 @@ func (c *Conn) readRecordOrCCS(expectChangeCipherSpec bool) error {
 		return c.in.setErrorLocked(errors.New("dtlcp: internal error: attempted to read record with pending application data"))
 	}
 
+	// delivered 记录本次调用是否已经交付了调用方等待的内容（握手数据或 CCS）。
+	delivered := false
+
 	// 循环处理数据报中的所有记录（DTLS/DTLCP 允许一个数据报包含多条记录）
 	for {
 		c.readBuf = nil
 
 		// 如果没有待处理数据，读取一个新的 UDP 数据报
 		if len(c.rawInputBuf) < recordHeaderLen {
+			if delivered {
+				// 当前数据报已处理完（剩余字节不足一个记录头）：先返回让调用方消费 handBuf。
+				// 否则被静默丢弃的记录或尾部多余字节会使单次调用跨越任意多个数据报，
+				// 对端可借此让 handBuf 无限增长，且已到达的握手数据迟迟得不到处理。
+				c.rawInputBuf = nil
+				return nil
+			}
 			if err := c.readDatagram(); err != nil {
 				if e, ok := err.(net.Error); !ok || !e.Timeout() {
 					c.in.setErrorLocked(err)
@@ -740,6 +750,10 @@ func (c *Conn) readRecordOrCCS(expectChangeCipherSpec bool) error {
 			switch data[0] {
 			case alertLevelWarning:
 				c.rawInputBuf = nil
+				if delivered {
+					// 本次调用已交付握手数据：返回而不是递归读取后续数据报
+					return nil
+				}
 				return c.retryReadRecord(expectChangeCipherSpec)
 			case alertLevelError:
 				return c.in.setErrorLocked(&net.OpError{Op: "remote error", Err: alert(data[1])})
@@ -787,6 +801,7 @@ func (c *Conn) readRecordOrCCS(expectChangeCipherSpec bool) error {
 				windowSize = c.config.ReplayWindow
 			}
 			c.replayWindow = newReplayWindow(windowSize)
+			delivered = true
 			// CCS 后如果还有数据（如 Finished 在同一数据报中），继续处理
 			if len(c.rawInputBuf) > 0 {
 				continue
@@ -825,6 +840,7 @@ func (c *Conn) readRecordOrCCS(expectChangeCipherSpec bool) error {
 				continue
 			}
 			c.handBuf.Write(data)
+			delivered = true
 			// 如果还有未处理记录，继续循环处理
 			if len(c.rawInputBuf) > 0 {
 				continue
